@@ -91,7 +91,10 @@ partial def treeCheck (src : List UInt8) (j : Json) : Option String :=
       (J.arr (g field)).foldl (fun acc p =>
         acc <|> (if !lcOk src p then some s!"{t}.{field}: line/column of {p.compress} are not those of its offset"
                  else if !spells src (posOf p) alts then some s!"{t}.{field} at {posOf p}: the source does not spell {alts} there" else none)) none
-    let name (h : Json) : List String := [String.ofList ((lowerB (J.hx h)).map fun c => Char.ofNat c.toNat), "`"]
+    -- (the name as text: identifiers are valid UTF-8; bytes that are not fall back to one character per byte)
+    let name (h : Json) : List String :=
+      let b := lowerB (J.hx h)
+      [(String.fromUTF8? (ByteArray.mk b.toArray)).getD (String.ofList (b.map fun c => Char.ofNat c.toNat)), "`"]
     let digits := ["0","1","2","3","4","5","6","7","8","9",".","+","-"]
     let own : Option String :=
       match t with
